@@ -7,11 +7,19 @@ use crate::{
     transports::ice::stun::random_u64,
 };
 use async_trait::async_trait;
+#[cfg(not(rustrtc_verif))]
 use parking_lot::Mutex as SyncMutex;
+#[cfg(rustrtc_verif)]
+use crate::verif_hooks::sync::Mutex as SyncMutex;
+#[cfg(not(rustrtc_verif))]
 use std::sync::{
     Arc,
     atomic::{AtomicBool, AtomicU64, Ordering},
 };
+#[cfg(rustrtc_verif)]
+use std::sync::Arc;
+#[cfg(rustrtc_verif)]
+use crate::verif_hooks::sync::{AtomicBool, AtomicU64, Ordering};
 use tokio::sync::broadcast::error::TryRecvError as BroadcastTryRecvError;
 use tokio::sync::{Mutex, Notify, broadcast, mpsc};
 use tracing::{debug, warn};
